@@ -62,13 +62,15 @@ theorem p2c_unwrap_work_bounded (P : Prims) (name hs aes : String) (klen fuel : 
     exact ⟨hdr, it, st, pw, dk, hh, hp, h1, h2, hst, hl1, hl2, hpw, hdk⟩
   | _ => simp at h
 
-theorem password_bounded (jwk : Json) (pw : Bs) (h : pbes2Password jwk = some pw) :
-    (∃ s, jwk = .str s) ∨ pw.length ≤ keymax := by
+theorem password_bounded (jwk : Json) (pw : Bs) (h : pbes2Password jwk = some pw) : pw.length ≤ keymax := by
   unfold pbes2Password at h
   cases jwk with
-  | str s => exact Or.inl ⟨s, rfl⟩
+  | str s =>
+    simp only at h
+    split at h
+    · simp at h
+    · simp only [Option.some.injEq] at h; subst h; omega
   | _ =>
-    right
     simp only at h
     split at h
     · split at h
